@@ -189,7 +189,35 @@ def main(ck):
         delta = (M + G) + smin * rng.uniform(0.01, 0.5)
       PB = gg.place(rng, A0, tb, sb, RB, dvec, delta)
       shifted = False
-      if rng.rand() < 0.3:
+      inside = ip < 2 and ta != 'plane' and (ta in ('sphere', 'capsule') or tb in ('sphere', 'capsule'))
+      if inside:
+        # structured class "centre inside": the centre of the sphere / capsule lies INSIDE the other geom, near each cap /
+        # face / wall, in both halves of every local axis (sphere-X depths are unique at any depth and are asserted)
+        small_is_b = tb in ('sphere', 'capsule') and (ta not in ('sphere', 'capsule') or rng.rand() < 0.5)
+        ct, cs, cR = (ta, sa, RA) if small_is_b else (tb, sb, RB)
+        u = rng.uniform(-1, 1, 3)
+        near = 1 - 10 ** rng.uniform(-3, -0.3)
+        if ct == 'box':
+          pl = cs[:3] * u * 0.98
+          if rng.rand() < 0.6:
+            i = rng.randint(3)
+            pl[i] = rng.choice([-1.0, 1.0]) * cs[i] * near
+        elif ct in ('cylinder', 'capsule'):
+          rho, phi = cs[0] * 0.98 * math.sqrt(rng.rand()), rng.uniform(0, 2 * math.pi)
+          z = cs[1] * u[2] * 0.98
+          r3 = rng.rand()
+          if r3 < 0.45:
+            z = rng.choice([-1.0, 1.0]) * cs[1] * near            # next to a cap (both halves)
+          elif r3 < 0.7:
+            rho = cs[0] * near                                   # next to the wall
+          pl = np.array([rho * math.cos(phi), rho * math.sin(phi), z])
+        elif ct == 'ellipsoid':
+          pl = cs[:3] * gg.rand_unit(rng) * 0.95 * rng.rand() ** (1 / 3)
+        else:
+          pl = cs[0] * gg.rand_unit(rng) * 0.9 * rng.rand() ** (1 / 3)
+        PB = PA + RA @ pl if small_is_b else PA - RB @ pl
+        dclass, dkind, delta = 'centre-inside', 'inside', float('nan')
+      if rng.rand() < 0.3 and not inside:
         PB = PB + gg.perp_unit(rng, dvec) * smin * rng.uniform(0, 0.5)
         shifted = True
       S = [gr.Shape(ta, sa, PA, RA), gr.Shape(tb, sb, PB, RB)]
@@ -334,6 +362,11 @@ def main(ck):
         dmin, kmin = float(c['dist']), k
 
     deep = dmin is not None and dmin < -DEEP * smin
+    # capsule axis inside / crossing the other geom: the minimum-translation depth is not what the segment-based colliders
+    # measure (and is not unique when the axes cross): invariants only. Sphere-X keeps its exact assertions.
+    core_inside = info['dclass'] == 'centre-inside' and 'capsule' in pair and 'sphere' not in pair
+    if core_inside:
+      deep = ncon > 0
     labels = ['pair:%s-%s/%s' % (t1, t2, 'contact' if ncon else 'none'), 'delta:' + info['dclass'],
               'orient:' + info['okind'], 'dir:' + info['dkind']]
     labels += labels_pre
@@ -466,7 +499,8 @@ def main(ck):
         nk = np.array(ck_['frame'][:3])
         pk = np.array(ck_['pos'])
         dk = float(ck_['dist'])
-        if dk < -DEEP * smin or (touching and is_ccd) or (pair == ('box', 'box') and sat > 0) or f5 or (is_ccd and ncon > 1):
+        if dk < -DEEP * smin or (touching and is_ccd) or (pair == ('box', 'box') and sat > 0) or f5 or (is_ccd and ncon > 1) \
+            or core_inside:
           # (convex multi-contact manifolds: points come from perturbed poses / face clipping, only the single-contact
           #  result of GJK/EPA is asserted)
           continue
@@ -524,6 +558,8 @@ def main(ck):
       return band[0]
 
     def gd_fail(msg, bucket):
+      if core_inside:
+        return
       if par_caps:
         if record:
           finding('capsule-capsule-parallel', msg + desc(), info)
@@ -583,7 +619,7 @@ def main(ck):
       return
     aligned = info['okind'] in ('identity', 'axis90') and info['dkind'] in ('A-axis', 'B-axis', 'normal')
     structured = info['okind'] in ('parallel', 'parallel-z', 'tilt') or info['dkind'] in (
-        'A-diag2', 'A-diag3', 'perp-Az', 'perp-Bz', 'near-A-axis') or info['dclass'] in ('pen-deep', 'edge')
+        'A-diag2', 'A-diag3', 'perp-Az', 'perp-Bz', 'near-A-axis') or info['dclass'] in ('pen-deep', 'edge', 'centre-inside')
     nt = ncon > 0 and (not aligned or structured)
     ck.case(nontrivial=nt, key=(pair, info['sa'], info['sb'], info['PB'], info['qB']),
             sample=dict(pair=pair, ncon=ncon, dmin=dmin, dtrue=dtrue, geomdist=d12, margin=M, gap=G,
